@@ -401,24 +401,25 @@ func replayCrash(raw json.RawMessage) []string {
 
 func runC01(ctx *core.Ctx, pool *par.Pool) {
 	cfgs := []pagedrv.Cfg{pagedrv.CfgA, pagedrv.CfgC}
-	depth, maxBits := 8, 10
+	depth, seedDepth, maxBits := 7, 5, 10
 	ctx.SetBudget(120 * time.Second)
 	if !ctx.Quick() {
 		cfgs = []pagedrv.Cfg{pagedrv.CfgA, pagedrv.CfgB, pagedrv.CfgC, pagedrv.CfgF}
-		depth, maxBits = 9, 12
+		depth, seedDepth, maxBits = 9, 8, 12
 		ctx.SetBudget(28 * time.Minute)
 	}
-	bfsDeadline := ctx.Start.Add(ctx.Deadline.Sub(ctx.Start) / 3)
-	full := ctx.Deadline
+	runs := plan(cfgs, []seed{seedWAL, seedFrag, seedTail}, depth, seedDepth)
+	share := ctx.Budget() / time.Duration(len(runs))
 	var total xstate.Stats
 	images, distinct, nontrivial, boundaries, transitionsTested, capped := 0, 0, 0, 0, 0, 0
 	outcomes := map[string]int{}
-	for ci, cfg := range cfgs {
-		cfg := cfg
+	for _, run := range runs {
+		cfg := run.Cfg
 		sigs := map[string]bool{}
 		var tasks []CrashTask
-		ctx.Deadline = bfsDeadline
-		st := xstate.BFS(ctx, pool, xstate.Spec{Cfg: cfg, Alphabet: crashAlphabet(ctx.Quick()), MaxDepth: depth, Flags: []string{"iolog"},
+		endRun := ctx.Phase(share)
+		endBFS := ctx.Phase(share * 4 / 10)
+		st := xstate.BFS(ctx, pool, xstate.Spec{Cfg: cfg, Seed: run.Seed.Ops, Alphabet: crashAlphabet(ctx.Quick()), MaxDepth: run.Depth, Flags: []string{"iolog"},
 			OnTransition: func(from *xstate.Node, s *xstate.Succ, isNew bool, to *xstate.Node) {
 				if s.IOSig == "" || s.Dead || sigs[s.IOSig] {
 					return
@@ -426,12 +427,11 @@ func runC01(ctx *core.Ctx, pool *par.Pool) {
 				sigs[s.IOSig] = true
 				tasks = append(tasks, CrashTask{Type: "crash", Cfg: cfg.Name, Path: append(from.Path(), s.Op), MaxBits: maxBits, Tears: true})
 			}})
-		ctx.Deadline = full
-		_ = ci
+		endBFS()
 		total.States += st.States
 		total.Transitions += st.Transitions
-		ctx.Set("depth_"+cfg.Name, st.Depth)
-		ctx.Set("io_shapes_"+cfg.Name, len(sigs))
+		ctx.Set("depth_"+run.name(), st.Depth)
+		ctx.Set("io_shapes_"+run.name(), len(sigs))
 		// shortest histories first
 		sort.SliceStable(tasks, func(i, j int) bool { return len(tasks[i].Path) < len(tasks[j].Path) })
 		raw := make([][]byte, len(tasks))
@@ -475,8 +475,9 @@ func runC01(ctx *core.Ctx, pool *par.Pool) {
 			}
 		}, func(int) { skipped++ })
 		if skipped > 0 {
-			ctx.Cap("cfg %s: deadline reached, %d of %d I/O shapes not crash-tested", cfg.Name, skipped, len(tasks))
+			ctx.Cap("%s: deadline reached, %d of %d I/O shapes not crash-tested", run.name(), skipped, len(tasks))
 		}
+		endRun()
 	}
 	if capped > 0 {
 		ctx.Cap("%d boundaries had more than %d pending units: subsets of size <=2, their complements and all log prefixes only", capped, maxBits)
